@@ -108,6 +108,10 @@ CHECKS["C20"] = dict(engine="tlc+vh", level="exploration", ref="4.10", technique
                      text="The specification defines the value/section space exhaustively and which shapes JSON can carry; identity of the checkpoint and of the restored events is checked on the real code for all 224 combinations.",
                      note="Trusted: Debug rendering as the equality of checkpoints. JSON format only (binary-codec feature is off in the default build).")
 
+CHECKS["C14"] = dict(engine="tlc+vh", level="exploration", ref="4.6", technique="TLA+ spec (Aggregate.tla) computes exact rational references with TLC for every batch of the bound; each batch run through the row, shared-event and columnar paths of the real Aggregator",
+                     text="The oracle lives in the specification (exact rationals, sanity-checked by TLC); the implementation is compared within float tolerances on all 39 216 (thorough 274 514) batches including a 10^9 offset variant, and the three paths must agree on every cell.",
+                     note="Trusted: float tolerances (1e-9 relative, variance 1e-6). Cells the documentation leaves open (NaN in stddev/ema/first/last/distinct, strings in distinct) are only checked for path agreement.")
+
 NOT_APPLICABLE = {
     "C41": "parser totality over arbitrary strings: no state/transition system to specify; a TLA+ model would only enumerate token strings (fuzzing under another name)",
     "C43": "LSP handler robustness over arbitrary text/cursor: per-call robustness, no protocol state in the property; outside model-based verification",
